@@ -21,7 +21,7 @@ func main() {
 			fmt.Fprintln(os.Stderr, err)
 			os.Exit(2)
 		}
-		fmt.Print(c17.Exec(o))
+		fmt.Print(e.Exec(o))
 		return
 	}
 	if len(os.Args) == 3 && os.Args[1] == "-build-iso" {
